@@ -31,7 +31,7 @@ func init() {
 		},
 		Run:            c02Run,
 		Floor:          func(tier string) int { return 500 },
-		Rule:           "(histories also contain 'refilled-objects': the caller writes new values into the tensor objects of the previous Run; single-node models carry NaN / infinities / signed zeros in half of the cases) histories of 3..10 Run calls on one Model drawn from the alphabet {fresh inputs, same values again, the same tensor objects again, outputs of the previous Run fed back (recurrent state round trip / any shape-compatible output), another batch size, a call failing validation (missing input, wrong rank), a call failing inside a node (proxy-injected error at a random node and phase; a caller tensor of another shape that passes the signature check through symbolic dimensions), proxy attached or not}; models: the four loadable sample models and generated programs in which initializers are randomly promoted to caller inputs so that caller tensors and weights both play the special roles (Conv bias, initial_h/initial_c, ArgMax/Reduce operand, Expand/Concat single input, Reshape/Squeeze/Unsqueeze/Flatten operands, MatMul operands, PRelu slope, Gather/Slice parameters, Constant/Scaler/LinearRegressor attribute tensors). After every call: every tensor the caller ever passed has an unchanged deep fingerprint (dtype, shape, strides, elements, backing), every weight has an unchanged fingerprint, and the outcome equals bit for bit (or error for error) the outcome of a freshly loaded Model given deep copies of the same inputs. Non-trivial = history with at least one re-use, feedback, failing call or batch change after a successful Run; distinct = (model structure, action sequence).",
+		Rule:           "(every 8th program ends in a node whose output name is already taken by a graph input or a weight: rebinding the name leaves the tensor alone) (histories also contain 'refilled-objects': the caller writes new values into the tensor objects of the previous Run; single-node models carry NaN / infinities / signed zeros in half of the cases) histories of 3..10 Run calls on one Model drawn from the alphabet {fresh inputs, same values again, the same tensor objects again, outputs of the previous Run fed back (recurrent state round trip / any shape-compatible output), another batch size, a call failing validation (missing input, wrong rank), a call failing inside a node (proxy-injected error at a random node and phase; a caller tensor of another shape that passes the signature check through symbolic dimensions), proxy attached or not}; models: the four loadable sample models and generated programs in which initializers are randomly promoted to caller inputs so that caller tensors and weights both play the special roles (Conv bias, initial_h/initial_c, ArgMax/Reduce operand, Expand/Concat single input, Reshape/Squeeze/Unsqueeze/Flatten operands, MatMul operands, PRelu slope, Gather/Slice parameters, Constant/Scaler/LinearRegressor attribute tensors). After every call: every tensor the caller ever passed has an unchanged deep fingerprint (dtype, shape, strides, elements, backing), every weight has an unchanged fingerprint, and the outcome equals bit for bit (or error for error) the outcome of a freshly loaded Model given deep copies of the same inputs. Non-trivial = history with at least one re-use, feedback, failing call or batch change after a successful Run; distinct = (model structure, action sequence).",
 		RaceInThorough: true,
 		Technique:      "runtime monitoring: deep before/after fingerprints of caller tensors and weights (hook: Model.VerifParameters), differential oracle against a freshly loaded model (the real code as its own reference, exact comparison), per-node attribution through the operator proxy",
 		Assumptions:    []string{"a freshly loaded Model given deep copies of the inputs is the reference for 'what this call returns'"},
